@@ -54,12 +54,12 @@ type Item struct {
 	// OptNoArg: the cluster ends in an optional-argument option that is given no argument (it takes its optional
 	// value; the next token is not consumed)
 	OptNoArg bool
-	Long   bool   // IFlag / IOptNoArg: long form
-	Cmd    *Cmd
-	Via    string // ICmd: the word used (name or alias)
-	Tok    string // IPos / IRaw
-	Toks   []string
-	Note   string
+	Long     bool // IFlag / IOptNoArg: long form
+	Cmd      *Cmd
+	Via      string // ICmd: the word used (name or alias)
+	Tok      string // IPos / IRaw
+	Toks     []string
+	Note     string
 }
 
 func (it *Item) argText() string {
